@@ -238,6 +238,35 @@ class Provenance:
                 if r is not None:
                     st[r] = st.get(r, EMPTY) | v
 
+    def _self_property(self, attr: str, st: dict[str, Tags], depth: int = 0) -> Tags | None:
+        """`self.<attr>` where attr is a property of the analysed method's class: the tags of what the property returns, evaluated
+        in the current state (a property is a view on fields, not a field)."""
+        cls_ = self.fn.fi.cls
+        if cls_ is None or depth > 3:
+            return None
+        m = self.fn.repo.lookup_method(cls_, attr)
+        if m is None or not (m.is_property or "cached_property" in m.decorators):
+            return None
+        from core.loader import own_nodes
+
+        out = EMPTY
+        found = False
+        for r in own_nodes(m.node):
+            if isinstance(r, ast.Return) and r.value is not None:
+                found = True
+                out |= self._ev(r.value, dict(st))
+        return out if found else None
+
+    def field_at(self, stmt: ast.AST, attr: str) -> Tags:
+        """Tags of `self.<attr>` (field or property) on entry of `stmt`."""
+        st = self.before.get(id(stmt), {})
+        key = f"self.{attr}"
+        if key not in st:
+            got = self._self_property(attr, st)
+            if got is not None:
+                return got
+        return self.get(st, key)
+
     def _through_helper(self, call: ast.Call, argtags: list) -> Tags | None:
         """Tags of the result of a private repo helper, obtained by analysing the helper with its parameters tagged like the
         arguments (one level of context; helpers that cannot be resolved uniquely are left to the caller)."""
@@ -294,6 +323,10 @@ class Provenance:
         if isinstance(e, ast.Attribute):
             extra = frozenset(self.attr_tags(e) or ()) if self.attr_tags is not None else EMPTY
             fk = field_key(e)
+            if fk is not None and fk not in st:
+                got = self._self_property(fk[5:], st)
+                if got is not None:
+                    return got | extra
             if fk is not None:
                 self._ev(e.value, st) if not isinstance(e.value, ast.Name) else None
                 return self.get(st, fk) | extra
